@@ -164,6 +164,7 @@ LATLON_GRID = [   # (node coordinates, query, radius in metres): nearest in metr
     ({1: (0.0, 0.0010), 2: (0.0012, 0.0), 3: (0.0, -0.0030)}, (0.0, 0.0), 400.0),
     ({1: (50.87, 4.7010), 2: (50.8705, 4.70), 3: (50.88, 4.70)}, (50.87, 4.70), 100.0),
     ({1: (60.0016, 10.0), 2: (60.0, 10.0020), 3: (60.0, 10.0018)}, (60.0, 10.0), 300.0),
+    ({1: (89.95, 10.0), 2: (89.9, 100.0), 3: (89.8, -120.0)}, (89.9, 10.0), 50000.0),      # the search circle contains the pole
 ]
 
 
@@ -303,6 +304,7 @@ LATLON_EDGE_GRID = [   # star of three edges out of node 1 (so the start node is
     ({1: (-45.0, 170.0), 2: (-45.0, 170.0030), 3: (-45.0020, 170.0), 4: (-44.9990, 169.9990)}, (-45.0006, 170.0008), 500.0),
     ({1: (0.0, 0.0), 2: (0.0015, 0.0), 3: (0.0, 0.0030), 4: (-0.0010, -0.0010)}, (0.0003, 0.0009), 300.0),
     ({1: (50.87, 4.70), 2: (50.8710, 4.70), 3: (50.87, 4.7030), 4: (50.8690, 4.6990)}, (50.8702, 4.7004), 60.0),
+    ({1: (89.9, 10.0), 2: (89.95, 10.0), 3: (89.9, 100.0), 4: (89.8, -120.0)}, (89.92, 20.0), 50000.0),      # the search circle contains the pole
 ]
 
 
